@@ -242,6 +242,14 @@ Proof.
 Qed.
 Print Assumptions C15_clientHello_extension_block.
 
+(* ... and of the message as a whole: clientHelloMsg.unmarshal accepts exactly the byte strings of the shape
+   HSMsgParsers.ch_shape - 4 header bytes (the 3-byte length is not looked at), version, 32 random bytes, a session id of
+   at most 32 bytes, an even-length cipher-suite list, compression methods, then nothing or a u16 length and an
+   extension block of exactly that length satisfying ext_block_ok; nothing may follow. *)
+Theorem C15_clientHello_accepted_iff : forall data, accepts (clientHello_unmarshal data) <-> ch_shape data.
+Proof. exact clientHello_accepts_iff. Qed.
+Print Assumptions C15_clientHello_accepted_iff.
+
 (* ---- 5. the tables the models use are the ones in the source now -------------------------------------------- *)
 (* Gen/HSTables.v is regenerated from gmtls/cipher_suites.go, gm_support.go, common.go on every run: both suite tables
    row by row (id, key agreement, flag bits), the default suite lists, version numbers, minVersion / maxVersion,
@@ -430,6 +438,15 @@ Proof.
   - apply (EB_cons 0 5 0 0 [] []); [reflexivity|exact I|constructor].
   - intros H. apply (ch_ext_loop_accepts 5 [0; 13; 0; 0] (mkCHF 0 [] [] [] [] false [] false [] [] false [] [] false [] [] false)) in H; [|cbn; lia].
     destruct H as [r H]. vm_compute in H. discriminate.
+Qed.
+
+Example C15_clientHello_shape :
+  ch_shape (ex_ch [0; 4; 0; 5; 0; 0]) /\ ~ ch_shape (ex_ch [0; 4; 0; 13; 0; 0]) /\ ~ ch_shape (ex_ch [0]).
+Proof.
+  split; [|split].
+  - apply clientHello_accepts_iff. eexists. vm_compute. reflexivity.
+  - intros H. apply clientHello_accepts_iff in H. destruct H as [r H]. vm_compute in H. discriminate.
+  - intros H. apply clientHello_accepts_iff in H. destruct H as [r H]. vm_compute in H. discriminate.
 Qed.
 
 (* the reads of the source, all optional ones taken / none taken; the reads of a concrete input sequence *)
